@@ -1,8 +1,95 @@
-import BufrModel.Ops
+import BufrModel.Template
+import BufrProofs.Ops
+/-
+  C09 — Table C operators change width, scale, reference and fields exactly as regulated.
+
+  Model: BufrModel/Ops.lean (`BufrDDOp`, `bufr_resolve_tableC_v2..v5`, `bufr_apply_tables2node`).
+  Spec:  BufrSpec/Ops.lean (FM 94 Table C as a register file over the expanded sequence).
+-/
 namespace Bufr.C09
-open Bufr
-/-- placeholder while the simulation theorem is written: 2 01 YYY adds YYY-128 bits -/
-theorem C09_201_operand (ddo : DDO) (y : Nat) (hy : y ≠ 0) :
-    (resolveV2 ddo 1 y).ddo.addNbits = (y : Int) - 128 := by
-  simp [resolveV2, hy]
+open Bufr Bufr.Spec
+
+/-- **Layouts are the regulated ones.**  For every table set, every edition 2..5 and every
+expanded sequence of element and operator descriptors inside the scope of the transcription
+(`inScope`: operators 2 01–2 09 that the edition defines, used as FM 94 allows), applying the
+library's Table C machinery node by node gives every descriptor exactly the type, data width,
+scale, reference value and associated-field width the regulation gives it, and raises no
+error.  No bound on the length of the sequence or on operand values. -/
+theorem C09_layout (T : Tables) (ed : Nat) (hed : 2 ≤ ed ∧ ed ≤ 5) (ns : List Node)
+    (hN : ∀ n ∈ ns, NodeOK n) (hin : inScope T ed {} (ns.map (·.desc)) = true) :
+    (applyTablesAll T ed { enforce := .strict } ns).1.map layoutOf = layoutAll T {} (ns.map (·.desc)) ∧
+    (applyTablesAll T ed { enforce := .strict } ns).2.2 = false :=
+  layout_sim T ed hed ns _ _ sim_init (by simp [listSum]) hN hin
+
+/-- **Class 31 elements are never touched**, whatever operators are in force. -/
+theorem C09_class31_untouched (T : Tables) (ed : Nat) (ddo : DDO) (n : Node) (e : EntryB)
+    (hf : Desc.f n.desc = 0) (hx : Desc.x n.desc = 31) (hfb : T.fetchB n.desc = some e)
+    (hno : ddo.overrides.find? (·.1 = n.desc) = none) (ht : e.typ ≠ .ccitt) :
+    (applyTables2node T ed ddo n).2.1.enc = { e.enc with afNbits := 0 } ∧ (applyTables2node T ed ddo n).1 = ddo := by
+  have hf2 : ¬ (Desc.f n.desc = 2 ∧ (!n.flags.skipped) = true) := by omega
+  unfold applyTables2node
+  rw [if_neg hf2]
+  unfold applyTail baseEnc
+  simp only [hf, hfb, hno, hx, decide_true, Bool.or_true, ne_eq, not_true_eq_false, if_false, reassign]
+  rw [applyAF_class31]
+  cases h : e.typ with
+  | ccitt => exact absurd h ht
+  | numeric => simp [applyWidth, EntryB.enc, BType.toDType, h]
+  | codetable => simp [applyWidth, EntryB.enc, BType.toDType, h]
+  | flagtable => simp [applyWidth, EntryB.enc, BType.toDType, h]
+
+/-- **Edition gate** (strict enforcement, as used for encoding): an operator the edition does
+not define marks the dataset invalid instead of being applied silently. -/
+theorem C09_edition_gate (ddo : DDO) (y : Nat) (hs : ddo.enforce = .strict) :
+    (resolveTableC ddo 7 y 3).rc < 0 ∧ (resolveTableC ddo 8 y 3).rc < 0 ∧
+    (resolveTableC ddo 7 y 2).rc < 0 ∧ (resolveTableC ddo 8 y 2).rc < 0 ∧
+    (resolveTableC ddo 9 y 4).rc < 0 := by
+  simp [resolveTableC, hs, resolveV4, resolveV3, resolveV2]
+
+/-- operators inside a replication that occurs zero times (nodes flagged SKIPPED) change nothing -/
+theorem C09_skipped_operator_inert (T : Tables) (ed : Nat) (ddo : DDO) (n : Node)
+    (hf : Desc.f n.desc = 2) (hsk : n.flags.skipped = true) :
+    (applyTables2node T ed ddo n).1 = ddo := by
+  have hf2 : ¬ (Desc.f n.desc = 2 ∧ (!n.flags.skipped) = true) := by simp [hsk]
+  unfold applyTables2node
+  rw [if_neg hf2]
+  unfold applyTail baseEnc
+  simp [hf, reassign, applyAF, afApplies, applyWidth]
+
+/-! ### Non-vacuity -/
+
+def exT : Tables :=
+  { fetchB := fun d =>
+      if d = 7002 then some { desc := 7002, scale := -1, ref := -40, nbits := 16, typ := .numeric }
+      else if d = 12101 then some { desc := 12101, scale := 2, ref := 0, nbits := 16, typ := .numeric }
+      else if d = 1015 then some { desc := 1015, scale := 0, ref := 0, nbits := 160, typ := .ccitt }
+      else if d = 20003 then some { desc := 20003, scale := 0, ref := 0, nbits := 9, typ := .codetable }
+      else if d = 31021 then some { desc := 31021, scale := 0, ref := 0, nbits := 6, typ := .codetable }
+      else if d = 31001 then some { desc := 31001, scale := 0, ref := 0, nbits := 8, typ := .numeric }
+      else none,
+    fetchD := fun _ => none }
+
+def exSeq : List Nat :=
+  [207002, 7002, 207000, 201130, 202129, 12101, 202000, 201000, 204007, 31021, 12101, 1015, 31001, 20003, 204000,
+   208003, 1015, 208000, 206012, 63250, 7002]
+
+/-- the hypotheses of `C09_layout` hold for a sequence exercising 2 07 on a negative reference,
+2 01 with 2 02, a 7-bit associated field over numeric/character/code/class 31 elements, 2 08 and
+2 06 with an unknown local descriptor -/
+example : inScope exT 4 {} exSeq = true := by decide +kernel
+
+/-- and the layout computed by the model for it is the regulated one: reference −40 × 10² = −4000 -/
+example : ((applyTablesAll exT 4 { enforce := .strict } (exSeq.map (mkNode exT))).1.map layoutOf)[1]? =
+    some { desc := 7002, kind := .num, width := 23, scale := 1, ref := -4000, af := 0 } := by decide +kernel
+
+/-- freshly created descriptor nodes (what a template is made of) satisfy `NodeOK` -/
+theorem mkNode_ok (T : Tables) (d : Nat) : NodeOK (mkNode T d) := by
+  unfold NodeOK mkNode; split <;> simp
+
+example : ∀ n ∈ exSeq.map (mkNode exT), NodeOK n := by
+  intro n hn
+  simp only [List.mem_map] at hn
+  obtain ⟨d, _, rfl⟩ := hn
+  exact mkNode_ok exT d
+
 end Bufr.C09
